@@ -610,6 +610,6 @@ func c05Parent(prop, tier string) int {
 
 func init() {
 	Registry["C05"] = &Check{Level: "exploration", Worker: c05Worker, Parent: c05Parent, QuickBudget: 60 * time.Second, ThoroughBudget: 10 * time.Minute,
-		Rule: "(1) arithmetic law on ALL operand pairs of the 8-bit copy and (thorough) all 2^32 pairs of the 16-bit copy of counts.go (generated from the current file, overlaid into the whole program), and on the complete cross product of a boundary alphabet at real width; (2) bomb family depth 0..70 x fan-out 1..3 x leaf kind x blob size straddling 2^32 (virtual blobs), sums of 1..5 large blobs, scanned in-process and compared key by key with min(true, capacity); the narrowed build additionally scans every tree DAG of the C04 quick family; (3) every saturated quantity must render as the infinity sign with 30 exclamation marks at thresholds 0,1,30,1e9 and as the capacity in JSON v1/v2; (4) the depth-64 bomb must request each distinct object exactly once. non-trivial = operand value rows / scenarios in which at least one quantity saturates",
+		Rule:        "(1) arithmetic law on ALL operand pairs of the 8-bit copy and (thorough) all 2^32 pairs of the 16-bit copy of counts.go (generated from the current file, overlaid into the whole program), and on the complete cross product of a boundary alphabet at real width; (2) bomb family depth 0..70 x fan-out 1..3 x leaf kind x blob size straddling 2^32 (virtual blobs), sums of 1..5 large blobs, scanned in-process and compared key by key with min(true, capacity); the narrowed build additionally scans every tree DAG of the C04 quick family; (3) every saturated quantity must render as the infinity sign with 30 exclamation marks at thresholds 0,1,30,1e9 and as the capacity in JSON v1/v2; (4) the depth-64 bomb must request each distinct object exactly once. non-trivial = operand value rows / scenarios in which at least one quantity saturates",
 		Assumptions: []string{"the narrowed copy changes only the two type definitions and the MaxUint constants of counts.go", "virtual blobs: git-sizer never reads blob contents, only the size column"}}
 }
